@@ -997,7 +997,7 @@ class ReducedDensityMatrixPropagator(MatrixData, Saveable):
                 if indxR < cutoff_indx - 1:                      
                     indxR += stride
                 else:
-                    indxR = cutoff_indx
+                    indxR = cutoff_indx - 1
 
                 
             pr.data[indx,:,:] = rho2
@@ -1202,7 +1202,7 @@ class ReducedDensityMatrixPropagator(MatrixData, Saveable):
                 if indxR < cutoff_indx - 1:                      
                     indxR += stride
                 else:
-                    indxR = cutoff_indx
+                    indxR = cutoff_indx - 1
 
                 
             pr.data[indx,:,:] = rho2
@@ -1332,7 +1332,7 @@ class ReducedDensityMatrixPropagator(MatrixData, Saveable):
                 if indxR < cutoff_indx - 1:                      
                     indxR += stride
                 else:
-                    indxR = cutoff_indx
+                    indxR = cutoff_indx - 1
 
                 
             pr.data[indx,:,:] = rho2
